@@ -15,6 +15,7 @@ ASSUMPTIONS = ["DQN family: the update gate checked is `step > batch_size` (the 
 TIERS = {"quick": {"runs": 120}, "thorough": {"runs": 2400}}
 REQUIRED = ["restart_counter_with_reused_state", "non_identity_task_ids", "budget_exit", "episode_limit_exit", "resume", "warmup_iterations_observed", "returned_counter_exact", "scheduler_totals_exact", "ucb_argmax_checked", "initial_rounds", "protocol_misuse_rejected", "rollouts_checked", "several_tasks_trained"]
 REQUIRED_QUICK = ["budget_exit", "episode_limit_exit", "resume"]
+CHUNK = 24  # TrainSim plans per fresh worker process
 SHRINK_LISTS = [["env", "script"], ["chain"], ["ops"]]
 SHRINK_INTS = []
 CLAUSES = ["C11.a", "C11.b", "C11.c", "C11.d", "C11.e"]
